@@ -28,6 +28,7 @@ package secure
 //@   params b
 //@   flags libframe seq
 //@   ensures[abstract] result == strOfBytes(old(view(b)))
+//@   ensures[zero-copy] zeroCopy(result)
 //@ ext github.com/henrylee2cn/goutil.StringToBytes
 //@   params s
 //@   flags libframe seq
